@@ -139,3 +139,660 @@ Section Generic.
         rewrite E in E'. inversion E'; subst. exact Hin'.
   Qed.
 End Generic.
+
+(* ---- prefixes and slices -------------------------------------------------- *)
+Lemma prefix_b_skipn : forall eq k v l, prefix_b eq v l = true -> prefix_b eq (skipn k v) (skipn k l) = true.
+Proof.
+  induction k as [|k IH]; intros v l H; [exact H|].
+  destruct v as [|x v]; [destruct l; reflexivity|].
+  destruct l as [|y l]; [discriminate|]. cbn [prefix_b] in H. apply andb_true_iff in H. cbn [skipn]. apply IH. tauto.
+Qed.
+
+Lemma prefix_b_firstn_l : forall eq k v l, prefix_b eq v l = true -> prefix_b eq (firstn k v) l = true.
+Proof.
+  induction k as [|k IH]; intros v l H; [reflexivity|].
+  destruct v as [|x v]; [reflexivity|]. destruct l as [|y l]; [discriminate|].
+  cbn [prefix_b firstn] in *. apply andb_true_iff in H. rewrite (proj1 H), (IH _ _ (proj2 H)). reflexivity.
+Qed.
+
+(* only the first |v| elements of l matter *)
+Lemma prefix_b_firstn_r : forall eq v l, prefix_b eq v (firstn (length v) l) = prefix_b eq v l.
+Proof.
+  induction v as [|x v IH]; intro l; [reflexivity|].
+  destruct l as [|y l]; [reflexivity|]. cbn [length firstn prefix_b]. rewrite IH. reflexivity.
+Qed.
+
+Lemma prefix_b_length : forall eq v l, prefix_b eq v l = true -> length v <= length l.
+Proof.
+  induction v as [|x v IH]; intros l H; cbn [length]; [lia|].
+  destruct l as [|y l]; [discriminate|]. cbn [prefix_b] in H. apply andb_true_iff in H. apply proj2, IH in H. cbn [length]. lia.
+Qed.
+
+Lemma slice_length : forall (l : bytes) from len, from + len <= length l -> length (slice l from len) = len.
+Proof. intros. unfold slice. rewrite firstn_length, skipn_length. lia. Qed.
+
+Lemma prefix_b_slice : forall eq v l bt len, prefix_b eq v l = true ->
+  prefix_b eq (slice v bt len) (skipn bt l) = true.
+Proof. intros. unfold slice. apply prefix_b_firstn_l. apply prefix_b_skipn. assumption. Qed.
+
+Lemma skipn_add : forall (l : bytes) a b, skipn a (skipn b l) = skipn (b + a) l.
+Proof.
+  intros l a b. revert l. induction b as [|b IH]; intro l; [reflexivity|].
+  destruct l as [|x l]; [destruct a; reflexivity|]. cbn [skipn Nat.add]. apply IH.
+Qed.
+
+(* exact comparison: the data equals the pattern *)
+Lemma byte_eq_exact : forall k x y, byte_eq false k x y = true <-> N.lxor y k = x.
+Proof. intros. unfold byte_eq. cbn [andb]. rewrite orb_false_r. apply N.eqb_eq. Qed.
+
+Lemma prefix_exact_firstn : forall v l, prefix_b (byte_eq false 0) v l = true -> firstn (length v) l = v.
+Proof.
+  induction v as [|x v IH]; intros l H; [reflexivity|].
+  destruct l as [|y l]; [discriminate|]. cbn [prefix_b] in H. apply andb_true_iff in H. destruct H as [H1 H2].
+  apply byte_eq_exact in H1. rewrite N.lxor_0_r in H1. cbn [length firstn]. rewrite H1, (IH _ H2). reflexivity.
+Qed.
+
+Lemma prefix_exact_refl : forall v rest, prefix_b (byte_eq false 0) v (v ++ rest) = true.
+Proof.
+  induction v as [|x v IH]; intro rest; [reflexivity|]. cbn [app prefix_b]. rewrite IH, andb_true_r.
+  apply byte_eq_exact. apply N.lxor_0_r.
+Qed.
+
+(* ---- case folding --------------------------------------------------------- *)
+Lemma letter_cases : forall b, is_upper b || is_lower b = true ->
+  (65 <= b /\ b <= 90)%N \/ (97 <= b /\ b <= 122)%N.
+Proof.
+  intros b H. apply orb_true_iff in H. unfold is_upper, is_lower in H.
+  destruct H as [H|H]; apply andb_true_iff in H; destruct H as [H1 H2]; apply N.leb_le in H1, H2; lia.
+Qed.
+
+Lemma byte_eq_nocase_cases : forall x y, byte_eq true 0 x y = true ->
+  y = x \/ (is_upper x || is_lower x = true /\ y = swapcase x).
+Proof.
+  intros x y H. unfold byte_eq in H. rewrite N.lxor_0_r in H. cbn [andb] in H.
+  apply orb_true_iff in H. destruct H as [H|H]; apply N.eqb_eq in H; [left; exact H|].
+  unfold swapcase in H.
+  destruct (is_upper y) eqn:U.
+  - unfold is_upper in U. apply andb_true_iff in U. destruct U as [U1 U2]. apply N.leb_le in U1, U2.
+    right. split.
+    + apply orb_true_iff. right. unfold is_lower. apply andb_true_iff. split; apply N.leb_le; lia.
+    + unfold swapcase. replace (is_upper x) with false by (symmetry; unfold is_upper; apply andb_false_iff; right; apply N.leb_gt; lia).
+      replace (is_lower x) with true by (symmetry; unfold is_lower; apply andb_true_iff; split; apply N.leb_le; lia). lia.
+  - destruct (is_lower y) eqn:Lw; [|left; exact H].
+    unfold is_lower in Lw. apply andb_true_iff in Lw. destruct Lw as [L1 L2]. apply N.leb_le in L1, L2.
+    right. split.
+    + apply orb_true_iff. left. unfold is_upper. apply andb_true_iff. split; apply N.leb_le; lia.
+    + unfold swapcase. replace (is_upper x) with true by (symmetry; unfold is_upper; apply andb_true_iff; split; apply N.leb_le; lia). lia.
+Qed.
+
+Lemma prefix_nocase_variant : forall v l, prefix_b (byte_eq true 0) v l = true ->
+  In (firstn (length v) l) (case_variants v).
+Proof.
+  induction v as [|x v IH]; intros l H; [left; reflexivity|].
+  destruct l as [|y l]; [discriminate|]. cbn [prefix_b] in H. apply andb_true_iff in H. destruct H as [H1 H2].
+  specialize (IH _ H2). cbn [length firstn case_variants].
+  destruct (byte_eq_nocase_cases _ _ H1) as [->|[Hl ->]].
+  - destruct (is_upper x || is_lower x); [apply in_app_iff; left|]; apply in_map; exact IH.
+  - rewrite Hl. apply in_app_iff. right. apply in_map. exact IH.
+Qed.
+
+(* ---- atoms ---------------------------------------------------------------- *)
+Lemma has_atom_spec : forall atoms bt v, has_atom atoms bt v = true ->
+  exists a, In a atoms /\ a_bt a = bt /\ a_bytes a = v.
+Proof.
+  intros atoms bt v H. unfold has_atom in H. rewrite existsb_lazy_eq in H. apply existsb_exists in H.
+  destruct H as [a [Ha H]]. destruct (Nat.eqb (a_bt a) bt) eqn:E; [|discriminate].
+  apply Nat.eqb_eq in E. apply bytes_eqb_eq in H. exists a. auto.
+Qed.
+
+Lemma atom_at_slice : forall a d pos len, a_bytes a = slice d pos len -> pos + len <= length d ->
+  atom_at a d pos = true.
+Proof.
+  intros a d pos len Hb Hl. unfold atom_at. rewrite Hb, slice_length by exact Hl.
+  apply andb_true_iff. split; [apply Nat.leb_le; exact Hl|apply bytes_eqb_eq; reflexivity].
+Qed.
+
+Lemma atom_at_spec : forall a d pos, atom_at a d pos = true ->
+  pos + length (a_bytes a) <= length d /\ firstn (length (a_bytes a)) (skipn pos d) = a_bytes a.
+Proof.
+  intros a d pos H. unfold atom_at in H. apply andb_true_iff in H. destruct H as [H1 H2].
+  apply Nat.leb_le in H1. apply bytes_eqb_eq in H2. split; assumption.
+Qed.
+
+Lemma vfw_no_flags : forall fl k d s e, f_fwl fl = false -> f_fwr fl = false -> verify_full_word fl k d s e = true.
+Proof. intros fl k d s e H1 H2. unfold verify_full_word. rewrite H1, H2. reflexivity. Qed.
+
+Lemma vfw_guard : forall fl k d s e,
+  ((negb (f_fwl fl) && negb (f_fwr fl)) || verify_full_word fl k d s e) = verify_full_word fl k d s e.
+Proof.
+  intros fl k d s e. destruct (f_fwl fl) eqn:A; destruct (f_fwr fl) eqn:B; cbn [negb andb orb]; try reflexivity.
+  symmetry. apply vfw_no_flags; assumption.
+Qed.
+
+(* ---- one sub-pattern ------------------------------------------------------ *)
+(* the search automaton reports every occurrence of every atom, and nothing else *)
+Definition hits_exact (atoms : list atom) (d : bytes) (hits : list hit) : Prop :=
+  forall i pos, In (i, pos) hits <-> exists a, nth_error atoms i = Some a /\ atom_at a d pos = true.
+
+Lemma all_hits_exact : forall atoms d pos i,
+  In (i, pos) (all_hits atoms d) -> exists a, nth_error atoms i = Some a /\ atom_at a d pos = true.
+Proof.
+  intros atoms d pos i H. unfold all_hits in H. apply in_flat_map in H. destruct H as [p [_ H]].
+  apply in_flat_map in H. destruct H as [j [_ H]]. destruct (nth_error atoms j) as [a|] eqn:E; [|destruct H].
+  destruct (atom_at a d p) eqn:A; [|destruct H]. destruct H as [H|[]]. inversion H; subst. exists a. auto.
+Qed.
+
+Section Single.
+  Variable sp : subpat.
+  Variable xr : N * N.
+  Variable atoms : list atom.
+  Variable d : bytes.
+  Variable hits : list hit.
+  Hypothesis Hsp : forall a, In a atoms -> a_sp a = 0.
+  Hypothesis Hhits : hits_exact atoms d hits.
+
+  (* what the pipeline feeds to the match list *)
+  Definition fed : list (nat * nat * option N) :=
+    flat_map (fun s => opt_list (verify_anchored s d)) [sp] ++
+    flat_map (fun h => opt_list (handle_hit [sp] atoms d h)) hits.
+
+  Lemma scan_pipeline_fed : scan_pipeline [sp] atoms hits d = run_adds (all_false (map mtch_of fed)).
+  Proof. unfold scan_pipeline, fed, all_false. rewrite map_map. reflexivity. Qed.
+
+  Lemma fed_hits_In : forall r,
+    In r (flat_map (fun h => opt_list (handle_hit [sp] atoms d h)) hits) <->
+    exists a pos, In a atoms /\ atom_at a d pos = true /\ handle_atom_match sp a pos d = Some r.
+  Proof.
+    intro r. rewrite in_flat_map. split.
+    - intros [[i pos] [Hin H]]. apply Hhits in Hin. destruct Hin as [a [Ea At]].
+      unfold handle_hit in H. cbn [fst snd] in H. rewrite Ea in H.
+      assert (Ia : In a atoms) by (eapply nth_error_In; exact Ea).
+      rewrite (Hsp _ Ia) in H. cbn [nth_error] in H.
+      destruct (handle_atom_match sp a pos d) as [r'|] eqn:E; [|destruct H]. destruct H as [<-|[]].
+      exists a, pos. auto.
+    - intros [a [pos [Ia [At H]]]]. apply In_nth_error in Ia. destruct Ia as [i Ei].
+      exists (i, pos). split; [apply Hhits; exists a; auto|].
+      unfold handle_hit. cbn [fst snd]. rewrite Ei.
+      assert (Ia : In a atoms) by (eapply nth_error_In; exact Ei).
+      rewrite (Hsp _ Ia). cbn [nth_error]. rewrite H. left. reflexivity.
+  Qed.
+
+  (* the kind-specific obligations, and the theorem they give *)
+  Definition handle_sound : Prop := forall a pos s e k,
+    In a atoms -> atom_at a d pos = true -> handle_atom_match sp a pos d = Some (s, e, k) ->
+    sp_match sp xr d s = Some (e, k).
+  Definition handle_complete : Prop := forall s e k,
+    sp_match sp xr d s = Some (e, k) ->
+    exists a pos, In a atoms /\ atom_at a d pos = true /\ handle_atom_match sp a pos d = Some (s, e, k).
+  Definition match_in_bounds : Prop := forall s e k, sp_match sp xr d s = Some (e, k) -> s <= length d.
+
+  Lemma pipeline_from_obligations :
+    verify_anchored sp d = None -> handle_sound -> handle_complete -> match_in_bounds ->
+    scan_pipeline [sp] atoms hits d = map mtch_of (sp_ref sp xr d).
+  Proof.
+    intros Hanch Hs Hc Hb. rewrite scan_pipeline_fed.
+    apply (pipeline_generic (sp_match sp xr d) (length d)).
+    intros s e k. unfold fed. cbn [flat_map]. rewrite Hanch. cbn [opt_list app]. rewrite fed_hits_In. split.
+    - intros [a [pos [Ia [At H]]]]. pose proof (Hs _ _ _ _ _ Ia At H) as M. split; [exact M|eapply Hb; exact M].
+    - intros [M _]. apply Hc. exact M.
+  Qed.
+End Single.
+
+(* ---- Literal --------------------------------------------------------------- *)
+Section Literal.
+  Variable lit : bytes.
+  Variable fl : spflags.
+  Variable xr : N * N.
+  Variable atoms : list atom.
+  Variable d : bytes.
+  Let sp := mkSP (KLiteral lit None) fl.
+  Hypothesis Hok : atoms_ok sp xr atoms = true.
+
+  Lemma literal_atoms_sound : forall a, In a atoms -> a_exact a = true ->
+    a_bt a = 0 /\ length (a_bytes a) = length lit /\ prefix_b (byte_eq (f_nocase fl) 0) lit (a_bytes a) = true.
+  Proof.
+    intros a Ia Ex. unfold atoms_ok in Hok. cbn [sp sp_kind sp_flags] in Hok.
+    apply andb_true_iff in Hok. destruct Hok as [H _]. rewrite forallb_forall in H. specialize (H a Ia).
+    rewrite Ex in H. cbn [negb orb] in H. rewrite !andb_true_iff in H. destruct H as [[H1 H2] H3].
+    apply Nat.eqb_eq in H1, H2. auto.
+  Qed.
+
+  Lemma literal_atoms_complete : exists bt len, 1 <= len /\ bt + len <= length lit /\
+    forall v, In v (if f_nocase fl then case_variants (slice lit bt len) else [slice lit bt len]) ->
+              exists a, In a atoms /\ a_bt a = bt /\ a_bytes a = v.
+  Proof.
+    unfold atoms_ok in Hok. cbn [sp sp_kind sp_flags] in Hok.
+    apply andb_true_iff in Hok. destruct Hok as [_ H]. rewrite existsb_lazy_eq in H. apply existsb_exists in H.
+    destruct H as [a0 [_ H]]. rewrite !andb_true_iff in H. destruct H as [[H1 H2] H3].
+    apply Nat.leb_le in H1, H2. exists (a_bt a0), (length (a_bytes a0)). repeat split; try assumption.
+    intros v Hv. rewrite forallb_forall in H3. apply has_atom_spec. apply H3. exact Hv.
+  Qed.
+
+  Lemma sp_match_literal : forall s e k, sp_match sp xr d s = Some (e, k) <->
+    (e = s + length lit /\ k = None /\ s + length lit <= length d /\
+     prefix_b (byte_eq (f_nocase fl) 0) lit (skipn s d) = true /\ verify_full_word fl 0 d s (s + length lit) = true).
+  Proof.
+    intros s e k. unfold sp_match. cbn [sp sp_kind sp_flags andb].
+    destruct (Nat.leb (s + length lit) (length d)) eqn:B; cbn [andb].
+    - apply Nat.leb_le in B.
+      destruct (prefix_b (byte_eq (f_nocase fl) 0) lit (skipn s d)) eqn:P; cbn [andb].
+      + destruct (verify_full_word fl 0 d s (s + length lit)) eqn:V.
+        * split; [intro H; inversion H; subst; auto|]. intros [-> [-> _]]. reflexivity.
+        * split; [discriminate|]. intros [_ [_ [_ [_ H]]]]. discriminate.
+      + split; [discriminate|]. intros [_ [_ [_ [H _]]]]. discriminate.
+    - apply Nat.leb_gt in B. split; [discriminate|]. intros [_ [_ [H _]]]. lia.
+  Qed.
+
+  Lemma handle_sound_literal : handle_sound sp xr atoms d.
+  Proof.
+    intros a pos s e k Ia At H. unfold handle_atom_match in H.
+    destruct (Nat.ltb pos (a_bt a)) eqn:Lt; [discriminate|]. apply Nat.ltb_ge in Lt.
+    cbn [sp sp_kind sp_flags] in H. destruct (a_exact a) eqn:Ex.
+    - destruct (literal_atoms_sound a Ia Ex) as [Hbt [Hlen Hpre]].
+      destruct (verify_full_word fl 0 d (pos - a_bt a) (pos - a_bt a + length (a_bytes a))) eqn:V; [|discriminate].
+      inversion H; subst. rewrite Hbt, Nat.sub_0_r, Hlen in *. apply sp_match_literal.
+      apply atom_at_spec in At. destruct At as [Hb Hf]. rewrite Hlen in Hb.
+      repeat split; try assumption.
+      rewrite <- prefix_b_firstn_r. rewrite <- Hlen, Hf. exact Hpre.
+    - destruct (verify_literal lit d (pos - a_bt a) fl) eqn:V; [|discriminate]. inversion H; subst.
+      unfold verify_literal in V. rewrite vfw_guard in V. rewrite !andb_true_iff in V. destruct V as [[V1 V2] V3].
+      apply Nat.leb_le in V1. apply sp_match_literal. auto.
+  Qed.
+
+  Lemma handle_complete_literal : handle_complete sp xr atoms d.
+  Proof.
+    intros s e k H. apply sp_match_literal in H. destruct H as [-> [-> [Hb [Hp Hv]]]].
+    destruct literal_atoms_complete as [bt [len [Hl1 [Hl2 Hcov]]]].
+    (* the bytes of the data under the covered range are one of the covered spellings *)
+    pose proof (prefix_b_slice _ _ _ bt len Hp) as Hps. rewrite skipn_add in Hps.
+    assert (Hsl : length (slice lit bt len) = len) by (apply slice_length; exact Hl2).
+    assert (Hv' : In (slice d (s + bt) len)
+                     (if f_nocase fl then case_variants (slice lit bt len) else [slice lit bt len])).
+    { unfold slice at 1. destruct (f_nocase fl).
+      - rewrite <- Hsl at 1. apply prefix_nocase_variant. exact Hps.
+      - left. symmetry. rewrite <- Hsl at 1. apply prefix_exact_firstn. exact Hps. }
+    destruct (Hcov _ Hv') as [a [Ia [Hbt Hby]]].
+    exists a, (s + bt). split; [exact Ia|]. split; [apply (atom_at_slice a d (s + bt) len Hby); lia|].
+    unfold handle_atom_match. rewrite Hbt. replace (Nat.ltb (s + bt) bt) with false by (symmetry; apply Nat.ltb_ge; lia).
+    replace (s + bt - bt) with s by lia. cbn [sp sp_kind sp_flags].
+    destruct (a_exact a) eqn:Ex.
+    - destruct (literal_atoms_sound a Ia Ex) as [_ [Hlen _]]. rewrite Hlen, Hv. reflexivity.
+    - unfold verify_literal. rewrite vfw_guard, Hp, Hv. replace (Nat.leb (s + length lit) (length d)) with true by (symmetry; apply Nat.leb_le; exact Hb).
+      reflexivity.
+  Qed.
+
+  Lemma match_in_bounds_literal : match_in_bounds sp xr d.
+  Proof. intros s e k H. apply sp_match_literal in H. lia. Qed.
+
+  Theorem pipeline_literal : forall hits,
+    (forall a, In a atoms -> a_sp a = 0) -> hits_exact atoms d hits ->
+    scan_pipeline [sp] atoms hits d = map mtch_of (sp_ref sp xr d).
+  Proof.
+    intros hits Hsp Hh. apply pipeline_from_obligations; try assumption.
+    - reflexivity.
+    - apply handle_sound_literal.
+    - apply handle_complete_literal.
+    - apply match_in_bounds_literal.
+  Qed.
+End Literal.
+
+(* ---- LiteralWithMask ------------------------------------------------------- *)
+Lemma masked_prefix_skipn : forall k v m l, masked_prefix_b v m l = true ->
+  masked_prefix_b (skipn k v) (skipn k m) (skipn k l) = true.
+Proof.
+  induction k as [|k IH]; intros v m l H; [exact H|].
+  destruct v as [|x v]; [destruct m; destruct l; reflexivity|].
+  destruct m as [|y m]; [discriminate|]. destruct l as [|z l]; [discriminate|].
+  cbn [masked_prefix_b] in H. apply andb_true_iff in H. cbn [skipn]. apply IH. tauto.
+Qed.
+
+Lemma masked_prefix_firstn_l : forall k v m l, masked_prefix_b v m l = true ->
+  masked_prefix_b (firstn k v) (firstn k m) l = true.
+Proof.
+  induction k as [|k IH]; intros v m l H; [reflexivity|].
+  destruct v as [|x v]; [reflexivity|]. destruct m as [|y m]; [discriminate|]. destruct l as [|z l]; [discriminate|].
+  cbn [masked_prefix_b firstn] in *. apply andb_true_iff in H. rewrite (proj1 H), (IH _ _ _ (proj2 H)). reflexivity.
+Qed.
+
+Lemma masked_prefix_firstn_r : forall v m l, masked_prefix_b v m (firstn (length v) l) = masked_prefix_b v m l.
+Proof.
+  induction v as [|x v IH]; intros m l; [reflexivity|].
+  destruct m as [|y m]; [reflexivity|]. destruct l as [|z l]; [reflexivity|].
+  cbn [length firstn masked_prefix_b]. rewrite IH. reflexivity.
+Qed.
+
+Lemma masked_prefix_slice : forall v m l bt len, masked_prefix_b v m l = true ->
+  masked_prefix_b (slice v bt len) (slice m bt len) (skipn bt l) = true.
+Proof. intros. unfold slice. apply masked_prefix_firstn_l. apply masked_prefix_skipn. assumption. Qed.
+
+Lemma byte_variants_In : forall x m y, (y < 256)%N -> N.land y m = x -> In y (byte_variants x m).
+Proof.
+  intros x m y Hy H. unfold byte_variants. apply filter_In. split; [|apply N.eqb_eq; exact H].
+  apply in_map_iff. exists (N.to_nat y). split; [lia|]. apply in_seq. lia.
+Qed.
+
+Lemma masked_prefix_variant : forall v m l, Forall (fun b => (b < 256)%N) l ->
+  masked_prefix_b v m l = true -> In (firstn (length v) l) (mask_variants v m).
+Proof.
+  induction v as [|x v IH]; intros m l Hl H; [destruct m; left; reflexivity|].
+  destruct m as [|y m]; [discriminate|]. destruct l as [|z l]; [discriminate|].
+  cbn [masked_prefix_b] in H. apply andb_true_iff in H. destruct H as [H1 H2]. apply N.eqb_eq in H1.
+  inversion Hl as [|? ? Hz Hl']; subst. cbn [length firstn mask_variants]. cbv zeta.
+  apply in_flat_map. exists z. split; [apply byte_variants_In; [assumption|reflexivity]|]. apply in_map. apply IH; assumption.
+Qed.
+
+Lemma skipn_In_bytes : forall (l : bytes) k b, In b (skipn k l) -> In b l.
+Proof.
+  intros l k b H. rewrite <- (firstn_skipn k l). apply in_app_iff. right. exact H.
+Qed.
+
+Section Masked.
+  Variable lit mask : bytes.
+  Variable fl : spflags.
+  Variable xr : N * N.
+  Variable atoms : list atom.
+  Variable d : bytes.
+  Let sp := mkSP (KMasked lit mask) fl.
+  Hypothesis Hok : atoms_ok sp xr atoms = true.
+  Hypothesis Hd : Forall (fun b => (b < 256)%N) d.
+
+  Lemma masked_atoms_sound : forall a, In a atoms -> a_exact a = true ->
+    a_bt a = 0 /\ length (a_bytes a) = length lit /\ masked_prefix_b lit mask (a_bytes a) = true.
+  Proof.
+    intros a Ia Ex. unfold atoms_ok in Hok. cbn [sp sp_kind sp_flags] in Hok.
+    rewrite !andb_true_iff in Hok. destruct Hok as [[_ H] _]. rewrite forallb_forall in H. specialize (H a Ia).
+    rewrite Ex in H. cbn [negb orb] in H. rewrite !andb_true_iff in H. destruct H as [[H1 H2] H3].
+    apply Nat.eqb_eq in H1, H2. auto.
+  Qed.
+
+  Lemma masked_atoms_complete : exists bt len, 1 <= len /\ bt + len <= length lit /\
+    forall v, In v (mask_variants (slice lit bt len) (slice mask bt len)) ->
+              exists a, In a atoms /\ a_bt a = bt /\ a_bytes a = v.
+  Proof.
+    unfold atoms_ok in Hok. cbn [sp sp_kind sp_flags] in Hok.
+    rewrite !andb_true_iff in Hok. destruct Hok as [_ H]. rewrite existsb_lazy_eq in H. apply existsb_exists in H.
+    destruct H as [a0 [_ H]]. rewrite !andb_true_iff in H. destruct H as [[H1 H2] H3].
+    apply Nat.leb_le in H1, H2. exists (a_bt a0), (length (a_bytes a0)). repeat split; try assumption.
+    intros v Hv. rewrite forallb_forall in H3. apply has_atom_spec. apply H3. exact Hv.
+  Qed.
+
+  Lemma sp_match_masked : forall s e k, sp_match sp xr d s = Some (e, k) <->
+    (e = s + length lit /\ k = None /\ s + length lit <= length d /\
+     masked_prefix_b lit mask (skipn s d) = true /\ verify_full_word fl 0 d s (s + length lit) = true).
+  Proof.
+    intros s e k. unfold sp_match. cbn [sp sp_kind sp_flags].
+    destruct (Nat.leb (s + length lit) (length d)) eqn:B; cbn [andb].
+    - apply Nat.leb_le in B.
+      destruct (masked_prefix_b lit mask (skipn s d)) eqn:P; cbn [andb].
+      + destruct (verify_full_word fl 0 d s (s + length lit)) eqn:V.
+        * split; [intro H; inversion H; subst; auto|]. intros [-> [-> _]]. reflexivity.
+        * split; [discriminate|]. intros [_ [_ [_ [_ H]]]]. discriminate.
+      + split; [discriminate|]. intros [_ [_ [_ [H _]]]]. discriminate.
+    - apply Nat.leb_gt in B. split; [discriminate|]. intros [_ [_ [H _]]]. lia.
+  Qed.
+
+  Lemma handle_sound_masked : handle_sound sp xr atoms d.
+  Proof.
+    intros a pos s e k Ia At H. unfold handle_atom_match in H.
+    destruct (Nat.ltb pos (a_bt a)) eqn:Lt; [discriminate|].
+    cbn [sp sp_kind sp_flags] in H. destruct (a_exact a) eqn:Ex.
+    - destruct (masked_atoms_sound a Ia Ex) as [Hbt [Hlen Hpre]].
+      destruct (verify_full_word fl 0 d (pos - a_bt a) (pos - a_bt a + length (a_bytes a))) eqn:V; [|discriminate].
+      inversion H; subst. rewrite Hbt, Nat.sub_0_r, Hlen in *. apply sp_match_masked.
+      apply atom_at_spec in At. destruct At as [Hb Hf]. rewrite Hlen in Hb.
+      repeat split; try assumption.
+      rewrite <- masked_prefix_firstn_r. rewrite <- Hlen, Hf. exact Hpre.
+    - destruct (verify_masked lit mask d (pos - a_bt a) fl) eqn:V; [|discriminate]. inversion H; subst.
+      unfold verify_masked in V. rewrite vfw_guard in V. rewrite !andb_true_iff in V. destruct V as [[V1 V2] V3].
+      apply Nat.leb_le in V1. apply sp_match_masked. auto.
+  Qed.
+
+  Lemma handle_complete_masked : handle_complete sp xr atoms d.
+  Proof.
+    intros s e k H. apply sp_match_masked in H. destruct H as [-> [-> [Hb [Hp Hv]]]].
+    destruct masked_atoms_complete as [bt [len [Hl1 [Hl2 Hcov]]]].
+    pose proof (masked_prefix_slice _ _ _ bt len Hp) as Hps. rewrite skipn_add in Hps.
+    assert (Hsl : length (slice lit bt len) = len) by (apply slice_length; exact Hl2).
+    assert (Hv' : In (slice d (s + bt) len) (mask_variants (slice lit bt len) (slice mask bt len))).
+    { unfold slice at 1. rewrite <- Hsl at 1. apply masked_prefix_variant; [|exact Hps].
+      rewrite Forall_forall in *. intros b Hb'. apply Hd. eapply skipn_In_bytes. exact Hb'. }
+    destruct (Hcov _ Hv') as [a [Ia [Hbt Hby]]].
+    exists a, (s + bt). split; [exact Ia|]. split; [apply (atom_at_slice a d (s + bt) len Hby); lia|].
+    unfold handle_atom_match. rewrite Hbt. replace (Nat.ltb (s + bt) bt) with false by (symmetry; apply Nat.ltb_ge; lia).
+    replace (s + bt - bt) with s by lia. cbn [sp sp_kind sp_flags].
+    destruct (a_exact a) eqn:Ex.
+    - destruct (masked_atoms_sound a Ia Ex) as [_ [Hlen _]]. rewrite Hlen, Hv. reflexivity.
+    - unfold verify_masked. rewrite vfw_guard, Hp, Hv. replace (Nat.leb (s + length lit) (length d)) with true by (symmetry; apply Nat.leb_le; exact Hb).
+      reflexivity.
+  Qed.
+
+  Theorem pipeline_masked : forall hits,
+    (forall a, In a atoms -> a_sp a = 0) -> hits_exact atoms d hits ->
+    scan_pipeline [sp] atoms hits d = map mtch_of (sp_ref sp xr d).
+  Proof.
+    intros hits Hsp Hh. apply pipeline_from_obligations; try assumption.
+    - reflexivity.
+    - apply handle_sound_masked.
+    - apply handle_complete_masked.
+    - intros s e k H. apply sp_match_masked in H. lia.
+  Qed.
+End Masked.
+
+(* ---- Xor ------------------------------------------------------------------- *)
+Lemma lxor_cancel : forall y k : N, N.lxor (N.lxor y k) k = y.
+Proof. intros. rewrite N.lxor_assoc, N.lxor_nilpotent, N.lxor_0_r. reflexivity. Qed.
+
+Lemma lxor_cancel_l : forall y x : N, N.lxor y (N.lxor y x) = x.
+Proof. intros. rewrite <- N.lxor_assoc, N.lxor_nilpotent, N.lxor_0_l. reflexivity. Qed.
+
+Lemma prefix_xor_map : forall k v l, prefix_b (byte_eq false k) v l = true ->
+  firstn (length v) l = map (fun x => N.lxor x k) v.
+Proof.
+  induction v as [|x v IH]; intros l H; [reflexivity|].
+  destruct l as [|y l]; [discriminate|]. cbn [prefix_b] in H. apply andb_true_iff in H. destruct H as [H1 H2].
+  apply byte_eq_exact in H1. cbn [length firstn map]. rewrite (IH _ H2). f_equal. rewrite <- H1. symmetry. apply lxor_cancel.
+Qed.
+
+Lemma skipn_head : forall (l : bytes) k y rest, skipn k l = y :: rest -> nth_error l k = Some y.
+Proof.
+  intros l k. revert l. induction k as [|k IH]; intros l y rest H.
+  - destruct l; [discriminate|]. cbn [skipn] in H. inversion H. reflexivity.
+  - destruct l as [|x l]; [discriminate|]. cbn [skipn nth_error] in *. eapply IH. exact H.
+Qed.
+
+Lemma nth_error_skipn_head : forall (l : bytes) k y, nth_error l k = Some y -> exists rest, skipn k l = y :: rest.
+Proof.
+  intros l k. revert l. induction k as [|k IH]; intros l y H.
+  - destruct l as [|x l]; [discriminate|]. inversion H. exists l. reflexivity.
+  - destruct l as [|x l]; [discriminate|]. cbn [skipn nth_error] in *. apply IH. exact H.
+Qed.
+
+Section Xor.
+  Variable lit : bytes.
+  Variable fl : spflags.
+  Variable xr : N * N.
+  Variable atoms : list atom.
+  Variable d : bytes.
+  Let sp := mkSP (KXor lit) fl.
+  Hypothesis Hok : atoms_ok sp xr atoms = true.
+
+  Lemma xor_atoms_sound : forall a, In a atoms ->
+    a_exact a = false /\ exists y t x, a_bytes a = y :: t /\ nth_error lit (a_bt a) = Some x /\
+                                       in_xor_range xr (N.lxor y x) = true.
+  Proof.
+    intros a Ia. unfold atoms_ok in Hok. cbn [sp sp_kind sp_flags] in Hok.
+    apply andb_true_iff in Hok. destruct Hok as [H _]. rewrite forallb_forall in H. specialize (H a Ia).
+    apply andb_true_iff in H. destruct H as [H1 H2]. apply negb_true_iff in H1. split; [exact H1|].
+    destruct (a_bytes a) as [|y t]; [discriminate|]. destruct (nth_error lit (a_bt a)) as [x|]; [|discriminate].
+    exists y, t, x. auto.
+  Qed.
+
+  Lemma xor_atoms_complete : exists bt len, 1 <= len /\ bt + len <= length lit /\
+    forall k, (fst xr <= k /\ k <= snd xr)%N ->
+              exists a, In a atoms /\ a_bt a = bt /\ a_bytes a = map (fun x => N.lxor x k) (slice lit bt len).
+  Proof.
+    unfold atoms_ok in Hok. cbn [sp sp_kind sp_flags] in Hok.
+    apply andb_true_iff in Hok. destruct Hok as [_ H]. rewrite existsb_lazy_eq in H. apply existsb_exists in H.
+    destruct H as [a0 [_ H]]. rewrite !andb_true_iff in H. destruct H as [[H1 H2] H3].
+    apply Nat.leb_le in H1, H2. exists (a_bt a0), (length (a_bytes a0)). repeat split; try assumption.
+    intros k Hk. rewrite forallb_forall in H3. apply has_atom_spec. apply H3. apply N_range_In. exact Hk.
+  Qed.
+
+  Lemma sp_match_xor : forall s e k, sp_match sp xr d s = Some (e, k) <->
+    exists x t y key, lit = x :: t /\ nth_error d s = Some y /\ key = N.lxor y x /\
+      e = s + length lit /\ k = Some key /\ in_xor_range xr key = true /\ s + length lit <= length d /\
+      prefix_b (byte_eq false key) lit (skipn s d) = true /\ verify_full_word fl key d s (s + length lit) = true.
+  Proof.
+    intros s e k. unfold sp_match. cbn [sp sp_kind sp_flags].
+    destruct lit as [|x t] eqn:El.
+    - split; [discriminate|]. intros [x [t [y [key [H _]]]]]. discriminate.
+    - destruct (nth_error d s) as [y|] eqn:Ed.
+      + set (key := N.lxor y x).
+        destruct (in_xor_range xr key && Nat.leb (s + length (x :: t)) (length d) &&
+                  prefix_b (byte_eq false key) (x :: t) (skipn s d) &&
+                  verify_full_word fl key d s (s + length (x :: t))) eqn:C.
+        * rewrite !andb_true_iff in C. destruct C as [[[C1 C2] C3] C4]. apply Nat.leb_le in C2. split.
+          -- intro H. inversion H; subst. exists x, t, y, key. repeat split; auto.
+          -- intros [x' [t' [y' [key' [E1 [E2 [E3 [-> [-> _]]]]]]]]]. inversion E1; inversion E2; subst. reflexivity.
+        * split; [discriminate|]. intros [x' [t' [y' [key' [E1 [E2 [E3 [_ [_ [C1 [C2 [C3 C4]]]]]]]]]]]].
+          inversion E1; inversion E2; subst x' t' y'. subst key'. fold key in C1, C3, C4.
+          rewrite C1, C3, C4 in C. replace (Nat.leb (s + length (x :: t)) (length d)) with true in C by (symmetry; apply Nat.leb_le; exact C2).
+          discriminate.
+      + split; [discriminate|]. intros [x' [t' [y' [key' [_ [E2 _]]]]]]. discriminate.
+  Qed.
+
+  Lemma handle_sound_xor : handle_sound sp xr atoms d.
+  Proof.
+    intros a pos s e k Ia At H. destruct (xor_atoms_sound a Ia) as [Ex [y0 [t0 [xb [Hby [Hnth Hr]]]]]].
+    unfold handle_atom_match in H. destruct (Nat.ltb pos (a_bt a)) eqn:Lt; [discriminate|].
+    rewrite Ex in H. cbn [sp sp_kind sp_flags] in H.
+    unfold verify_xor in H. rewrite Hby, Hnth in H. set (key := N.lxor y0 xb) in *.
+    destruct (Nat.leb (pos - a_bt a + length lit) (length d) && verify_full_word fl key d (pos - a_bt a) (pos - a_bt a + length lit) &&
+              prefix_b (byte_eq false key) lit (skipn (pos - a_bt a) d)) eqn:C; [|discriminate].
+    inversion H; subst s e k. rewrite !andb_true_iff in C. destruct C as [[C1 C2] C3]. apply Nat.leb_le in C1.
+    set (s := pos - a_bt a) in *.
+    assert (Hl : exists x t, lit = x :: t).
+    { clear -Hnth. destruct lit as [|x t]; [destruct (a_bt a); discriminate|eauto]. }
+    destruct Hl as [x [t El]].
+    destruct (skipn s d) as [|y rest] eqn:Esk; [rewrite El in C3; discriminate|].
+    assert (Ed : nth_error d s = Some y) by (eapply skipn_head; exact Esk).
+    assert (C3' := C3). rewrite El in C3'. cbn [prefix_b] in C3'. apply andb_true_iff in C3'. destruct C3' as [C3a _].
+    apply byte_eq_exact in C3a. apply lxor_key in C3a.
+    apply sp_match_xor. exists x, t, y, key. repeat split; try assumption; try reflexivity.
+    rewrite Esk. exact C3.
+  Qed.
+  Lemma handle_complete_xor : handle_complete sp xr atoms d.
+  Proof.
+    intros s e k H. apply sp_match_xor in H.
+    destruct H as [x [t [y [key [El [Ed [Ek [-> [-> [Hr [Hb [Hp Hv]]]]]]]]]]]].
+    destruct xor_atoms_complete as [bt [len [Hl1 [Hl2 Hcov]]]].
+    assert (Hrange : (fst xr <= key /\ key <= snd xr)%N).
+    { unfold in_xor_range in Hr. apply andb_true_iff in Hr. destruct Hr as [R1 R2]. apply N.leb_le in R1, R2. auto. }
+    destruct (Hcov key Hrange) as [a [Ia [Hbt Hby]]].
+    pose proof (prefix_b_slice _ _ _ bt len Hp) as Hps. rewrite skipn_add in Hps.
+    assert (Hsl : length (slice lit bt len) = len) by (apply slice_length; exact Hl2).
+    assert (Hdat : a_bytes a = slice d (s + bt) len).
+    { rewrite Hby. unfold slice at 2. rewrite <- Hsl at 2. symmetry. apply prefix_xor_map. exact Hps. }
+    exists a, (s + bt). split; [exact Ia|]. split; [apply (atom_at_slice a d (s + bt) len Hdat); lia|].
+    destruct (xor_atoms_sound a Ia) as [Ex [y0 [t0 [xb [Hby0 [Hnth _]]]]]].
+    unfold handle_atom_match. rewrite Hbt in *. replace (Nat.ltb (s + bt) bt) with false by (symmetry; apply Nat.ltb_ge; lia).
+    replace (s + bt - bt) with s by lia. rewrite Ex. cbn [sp sp_kind sp_flags].
+    unfold verify_xor. rewrite Hby0, Hbt, Hnth.
+    (* the key recovered from the atom is the key of the occurrence *)
+    assert (Hkey : N.lxor y0 xb = key).
+    { destruct (nth_error_skipn_head _ _ _ Hnth) as [rest Hsk].
+      unfold slice in Hby. rewrite Hsk in Hby. destruct len as [|len']; [lia|]. cbn [firstn map] in Hby.
+      rewrite Hby0 in Hby. inversion Hby as [[Hy0 Ht0]]. rewrite (N.lxor_comm xb key), N.lxor_assoc, N.lxor_nilpotent, N.lxor_0_r. reflexivity. }
+    rewrite Hkey, Hp, Hv. replace (Nat.leb (s + length lit) (length d)) with true by (symmetry; apply Nat.leb_le; exact Hb).
+    reflexivity.
+  Qed.
+
+  Theorem pipeline_xor : forall hits,
+    (forall a, In a atoms -> a_sp a = 0) -> hits_exact atoms d hits ->
+    scan_pipeline [sp] atoms hits d = map mtch_of (sp_ref sp xr d).
+  Proof.
+    intros hits Hsp Hh. apply pipeline_from_obligations; try assumption.
+    - reflexivity.
+    - apply handle_sound_xor.
+    - apply handle_complete_xor.
+    - intros s e k H. apply sp_match_xor in H. destruct H as [x [t [y [key [_ [_ [_ [_ [_ [_ [Hb _]]]]]]]]]]]. lia.
+  Qed.
+End Xor.
+
+(* ---- anchored literals (verify_anchored_patterns) ------------------------- *)
+Theorem pipeline_anchored : forall lit off fl xr d hits,
+  let sp := mkSP (KLiteral lit (Some off)) fl in
+  atoms_ok sp xr [] = true ->
+  scan_pipeline [sp] [] hits d = map mtch_of (sp_ref sp xr d).
+Proof.
+  intros lit off fl xr d hits sp _.
+  assert (Hhits : flat_map (fun h => opt_list (handle_hit [sp] [] d h)) hits = []).
+  { induction hits as [|[i pos] hits IH]; [reflexivity|]. cbn [flat_map]. rewrite IH.
+    unfold handle_hit. cbn [fst]. destruct i; reflexivity. }
+  unfold scan_pipeline. rewrite Hhits, app_nil_r. cbn [flat_map]. rewrite app_nil_r.
+  change (map (fun r => (mtch_of r, false)) (opt_list (verify_anchored sp d)))
+    with (map (fun r => (mtch_of r, false)) (opt_list (verify_anchored sp d))).
+  rewrite <- (map_map mtch_of (fun m => (m, false))). fold (all_false (map mtch_of (opt_list (verify_anchored sp d)))).
+  apply (pipeline_generic (sp_match sp xr d) (length d)).
+  intros s e k. unfold verify_anchored, sp_match. cbn [sp sp_kind sp_flags].
+  unfold verify_literal. rewrite vfw_guard.
+  destruct (Nat.eqb off s) eqn:E.
+  - apply Nat.eqb_eq in E. subst s. cbn [andb].
+    destruct (Nat.leb (off + length lit) (length d)) eqn:B; cbn [andb].
+    + apply Nat.leb_le in B. rewrite (andb_comm (verify_full_word fl 0 d off (off + length lit))).
+      destruct (prefix_b (byte_eq (f_nocase fl) 0) lit (skipn off d) && verify_full_word fl 0 d off (off + length lit)); cbn [opt_list In].
+      * split; [intros [H|[]]; inversion H; subst; split; [reflexivity|lia]|]. intros [H _]. inversion H; subst. left. reflexivity.
+      * split; [intros []|]. intros [H _]. discriminate.
+    + cbn [opt_list In]. split; [intros []|]. intros [H _]. discriminate.
+  - cbn [andb]. apply Nat.eqb_neq in E.
+    destruct (Nat.leb (off + length lit) (length d) && verify_full_word fl 0 d off (off + length lit) &&
+              prefix_b (byte_eq (f_nocase fl) 0) lit (skipn off d)); cbn [opt_list In].
+    + split; [intros [H|[]]; inversion H; subst; congruence|]. intros [H _]. discriminate.
+    + split; [intros []|]. intros [H _]. discriminate.
+Qed.
+
+(* ---- the family ------------------------------------------------------------ *)
+Definition in_family (sp : subpat) : bool :=
+  match sp_kind sp with KLiteral _ _ | KMasked _ _ | KXor _ => true | _ => false end.
+
+(* With correct atoms and a search automaton that reports exactly the atom
+   occurrences, in any order, the pipeline yields the reference list of the
+   sub-pattern. *)
+Theorem pipeline_literal_family : forall sp xr atoms d hits,
+  in_family sp = true ->
+  atoms_ok sp xr atoms = true ->
+  Forall (fun b => (b < 256)%N) d ->
+  (forall a, In a atoms -> a_sp a = 0) ->
+  hits_exact atoms d hits ->
+  scan_pipeline [sp] atoms hits d = map mtch_of (sp_ref sp xr d).
+Proof.
+  intros [[lit [off|]|lit mask|lit|lit p a w|] fl] xr atoms d hits Hf Hok Hd Hsp Hh; try discriminate.
+  - unfold atoms_ok in Hok. cbn [sp_kind] in Hok. destruct atoms; [|discriminate]. apply pipeline_anchored. reflexivity.
+  - apply pipeline_literal; assumption.
+  - apply pipeline_masked; assumption.
+  - apply pipeline_xor; assumption.
+Qed.
+
+(* the hits computed by all_hits are admissible *)
+Lemma all_hits_complete : forall atoms d i a pos,
+  nth_error atoms i = Some a -> atom_at a d pos = true -> In (i, pos) (all_hits atoms d).
+Proof.
+  intros atoms d i a pos E At. unfold all_hits. apply in_flat_map. exists pos. split.
+  - apply in_seq. apply atom_at_spec in At. lia.
+  - apply in_flat_map. exists i. split; [apply in_seq; split; [lia|]; apply nth_error_Some; congruence|].
+    rewrite E, At. left. reflexivity.
+Qed.
+
+Theorem all_hits_hits_exact : forall atoms d, hits_exact atoms d (all_hits atoms d).
+Proof.
+  intros atoms d i pos. split; [apply all_hits_exact|]. intros [a [E At]]. eapply all_hits_complete; eassumption.
+Qed.
+
+(* non-vacuity: a nocase literal with its four real atoms *)
+Example pipeline_example :
+  let sp := mkSP (KLiteral [97; 98; 99]%N None) (mkF false true false false) in
+  let atoms := [mkAtom 0 [97; 98]%N 0 false; mkAtom 0 [97; 66]%N 0 false; mkAtom 0 [65; 98]%N 0 false; mkAtom 0 [65; 66]%N 0 false] in
+  let d := [120; 65; 98; 67; 97; 98; 99]%N in
+  atoms_ok sp (0, 0)%N atoms = true /\
+  scan_pipeline [sp] atoms (all_hits atoms d) d = [mkM 1 4 None; mkM 4 7 None].
+Proof. vm_compute. split; reflexivity. Qed.
